@@ -12,7 +12,7 @@ import (
 	"io"
 	"strings"
 
-	"golang.org/x/net/html"
+	html "verifharness/internal/xnethtml"
 )
 
 // tok is one token of a structure signature. slot tokens (text, attribute values, strings,
@@ -630,9 +630,9 @@ func htmlTokens(doc string) []tok {
 	z := html.NewTokenizer(strings.NewReader(doc))
 	var out []tok
 	var text bytes.Buffer
-	textRaw := false
+	textKind := "html:text"
 	flush := func() {
-		out = append(out, tok{sig: "html:text", slot: true, val: text.String()})
+		out = append(out, tok{sig: textKind, slot: true, val: text.String()})
 		text.Reset()
 	}
 	sub := "" // "js", "json", "css", "data" while inside script/style
@@ -657,11 +657,7 @@ func htmlTokens(doc string) []tok {
 				}
 				continue
 			}
-			if textRaw {
-				text.Write(z.Raw())
-			} else {
-				text.WriteString(string(z.Text()))
-			}
+			text.Write(z.Text()) // entity-decoded, except inside raw-text elements
 		case html.StartTagToken, html.SelfClosingTagToken:
 			flush()
 			t := z.Token()
@@ -671,8 +667,10 @@ func htmlTokens(doc string) []tok {
 			}
 			out = append(out, tok{sig: sig})
 			for _, a := range t.Attr {
-				out = append(out, tok{sig: "html:attr:" + a.Key, slot: true, val: a.Val})
+				out = append(out, tok{sig: "html:attr-name", slot: true, val: a.Key})
+				out = append(out, tok{sig: "html:attr-value", slot: true, val: a.Val})
 			}
+			textKind = "html:text"
 			if tt == html.StartTagToken {
 				switch t.Data {
 				case "script":
@@ -685,7 +683,9 @@ func htmlTokens(doc string) []tok {
 						}
 					}
 				}
-				textRaw = rawTextElems[t.Data]
+				if rawTextElems[t.Data] {
+					textKind = "html:rawtext"
+				}
 			}
 		case html.EndTagToken:
 			t := z.Token()
@@ -694,7 +694,7 @@ func htmlTokens(doc string) []tok {
 			} else {
 				flush()
 			}
-			textRaw = false
+			textKind = "html:text"
 			out = append(out, tok{sig: "html:</" + t.Data})
 		case html.CommentToken:
 			flush()
